@@ -16,7 +16,7 @@
 From Coq Require Import String Ascii List Bool Arith ZArith.
 Import ListNotations.
 Require Import PyBase PyStr Lex Symbols ParseEq ParseModel GLex GNorm Graph GraphFacts GraphTheorems GraphEvalFacts GraphEvalWf GraphExamples GTokenise GTokeniseFacts.
-Require Import Denorm DenormFacts GraphParseFacts GraphScriptFacts GraphSrcWf GraphSrcGraph GraphTokWf GraphSrcGraphWs GraphParseExamples LayoutExamples.
+Require Import Denorm DenormFacts GraphParseFacts GraphScriptFacts GraphSrcWf GraphSrcGraph GraphTokWf GraphSrcGraphWs GraphSeriesFacts GraphParseExamples LayoutExamples.
 Require Import Split Merge ParseContribFacts.
 Require Import Solver Eval EvalFacts.
 Open Scope string_scope.
@@ -211,18 +211,17 @@ Print Assumptions C20_edge_is_read.
 
 (* ---- from the parser model to the graph, inside the model ---- *)
 (* for every statement  NAME[k] = rhs  written in de-normalised form (Denorm.denorm_text, any index-bracket layout `lay`) whose normalised equation q satisfies
-   the decidable conditions dq_ok (see Props/C14.v) and neq_wf, and which does not use NAME as a function: the symbols
+   the decidable conditions dq_ok (see Props/C14.v) and neq_wf (a statement that calls NAME as a function is a SymbolError since fix b45daa1, so no such guard is needed any more): the symbols
    parse_equation produces carry exactly one equation, and symbols_to_graph builds graph_of [q] from them *)
 Theorem C20_reparsed_graph : forall (lay : layout) (y : string) (ky : Z) (ws r : list ntok) (syms : list symbol),
   dq_ok lay (mkNeq (NTerm y (IInt ky) :: ws) r) = true -> neq_wf (mkNeq (NTerm y (IInt ky) :: ws) r) = true ->
-  no_function_named y r = true ->
   parse_equation_M (denorm_text lay (mkNeq (NTerm y (IInt ky) :: ws) r)) = POk syms ->
   symbols_to_graph_M syms = Ret (graph_of [mkNeq (NTerm y (IInt ky) :: ws) r]).
 Proof. exact reparsed_graph. Qed.
 Print Assumptions C20_reparsed_graph.
 
 Theorem C20_reparsed_graph_satisfiable :
-  dq_ok canon ex_fix_q = true /\ neq_wf ex_fix_q = true /\ no_function_named "C" (nrhs ex_fix_q) = true /\
+  dq_ok canon ex_fix_q = true /\ neq_wf ex_fix_q = true /\
   exists syms, parse_equation_M (denorm_text canon ex_fix_q) = POk syms /\
     match symbols_to_graph_M syms with
     | Ret g => filter varlike_id (in_edges g "C[t+1]") = ["alpha_1[t]"; "YD[t+2]"; "H[t-1]"; "X['2000']"]
@@ -242,7 +241,7 @@ Proof. exact merge_equations. Qed.
 Print Assumptions C20_merge_keeps_equations.
 
 (* for every script that the splitter cuts into the statements  denorm_text lay q_1 … denorm_text lay q_n  (each q_i a plain
-   NAME[k] = rhs under dq_ok and neq_wf whose NAME is not used as a function) and that parse_model accepts, the graph of the
+   NAME[k] = rhs under dq_ok and neq_wf) and that parse_model accepts, the graph of the
    parsed symbols has exactly the edges of the q_i: x -> n iff some q_i has n on its left and x on its right.  Statement order,
    names used before their definition and repeated statements do not matter *)
 Theorem C20_script_graph_edges : forall (lay : layout) (qs : list neq) (s : string) (syms : list symbol),
@@ -275,7 +274,7 @@ Theorem C20_source_statement_wf : forall (lay : layout) (q : neq),
 Proof. exact dq_ok_neq_wf. Qed.
 Print Assumptions C20_source_statement_wf.
 Theorem C20_source_statement_graph : forall (lay : layout) (y : string) (ky : Z) (ws r : list ntok) (syms : list symbol),
-  dq_ok lay (mkNeq (NTerm y (IInt ky) :: ws) r) = true -> sep_ok lay r = true -> no_function_named y r = true ->
+  dq_ok lay (mkNeq (NTerm y (IInt ky) :: ws) r) = true -> sep_ok lay r = true ->
   parse_equation_M (denorm_text lay (mkNeq (NTerm y (IInt ky) :: ws) r)) = POk syms ->
   symbols_to_graph_M syms = Ret (graph_of [mkNeq (NTerm y (IInt ky) :: ws) r]) /\ neq_wf (mkNeq (NTerm y (IInt ky) :: ws) r) = true.
 Proof. exact source_statement_graph. Qed.
@@ -310,7 +309,7 @@ Theorem C20_source_any_blanks_wf : forall (lay : layout) (q : neq),
 Proof. exact dq_ok_ws_neq_wf. Qed.
 Print Assumptions C20_source_any_blanks_wf.
 Theorem C20_source_any_blanks_statement_graph : forall (lay : layout) (y : string) (ky : Z) (ws r : list ntok) (syms : list symbol),
-  dq_ok_ws lay (mkNeq (NTerm y (IInt ky) :: ws) r) = true -> sep_ok lay r = true -> no_function_named y r = true ->
+  dq_ok_ws lay (mkNeq (NTerm y (IInt ky) :: ws) r) = true -> sep_ok lay r = true ->
   parse_equation_M (denorm_text lay (mkNeq (NTerm y (IInt ky) :: ws) r)) = POk syms ->
   symbols_to_graph_M syms = Ret (graph_of [nrm_q (mkNeq (NTerm y (IInt ky) :: ws) r)]) /\
   neq_wf (nrm_q (mkNeq (NTerm y (IInt ky) :: ws) r)) = true.
@@ -354,6 +353,56 @@ Theorem C20_tuple_assignment_instance :
     end.
 Proof. exact ex_tuple_assignment. Qed.
 Print Assumptions C20_tuple_assignment_instance.
+
+(* ---- finding #19 repaired in /repo (b45daa1), stated positively: every variable-like dependency of the graph is a SERIES of
+   the model (is_series: the symbol list holds a symbol of that name of type ENDOGENOUS / EXOGENOUS / PARAMETER / ERROR — the
+   model's NAMES).  Before the fix `Y = exp + exp(X)` was accepted, the FUNCTION entry replaced the variable exp, and the graph
+   had the edge exp[t] -> Y[t] although the model had no series exp. ---- *)
+(* per equation, for EVERY term list: when the symbol loop of parse_equation returns, every variable / parameter / error term has
+   a symbol of its name with a series type *)
+Theorem C20_terms_are_series_per_equation : forall (eqn code : string) (terms : list term) (syms : list symbol),
+  equation_symbols eqn code terms = Ret syms ->
+  forall t, In t terms -> is_series (ttype t) = true ->
+  exists s, In s syms /\ sname s = Some (tname t) /\ is_series (stype s) = true.
+Proof. exact equation_symbols_series. Qed.
+Print Assumptions C20_terms_are_series_per_equation.
+(* the cross-equation merge keeps every series (for EVERY list of per-statement symbol lists) *)
+Theorem C20_merge_keeps_series : forall (by_eq : list (list symbol)) (out : list symbol),
+  merge_symbols by_eq = Ret out ->
+  forall s n, In s (concat by_eq) -> sname s = Some n -> is_series (stype s) = true ->
+  exists s', In s' out /\ sname s' = Some n /\ is_series (stype s') = true.
+Proof. exact merge_series. Qed.
+Print Assumptions C20_merge_keeps_series.
+(* scripts of source statements (any layout, dq_ok_ws + sep_ok) accepted by the parser model: every term of every statement *)
+Theorem C20_script_terms_are_series : forall (lay : layout) (qs : list neq) (s : string) (syms : list symbol),
+  Forall (stmt_src_ws lay) qs ->
+  split_M s = (map (denorm_text lay) qs, None) ->
+  parse_model_nocheck s = POk syms ->
+  forall q name i, In q qs -> In (name, i) (nterms (nlhs q) ++ nterms (nrhs q)) ->
+  exists sy, In sy syms /\ sname sy = Some name /\ is_series (stype sy) = true.
+Proof. exact source_script_terms_series. Qed.
+Print Assumptions C20_script_terms_are_series.
+(* … hence every variable-like in-edge of the graph *)
+Theorem C20_graph_terms_are_series : forall (lay : layout) (qs : list neq) (s : string) (syms : list symbol),
+  Forall (stmt_src_ws lay) qs ->
+  split_M s = (map (denorm_text lay) qs, None) ->
+  parse_model_nocheck s = POk syms ->
+  exists g, symbols_to_graph_M syms = Ret g /\
+    forall x n, is_edge g x n = true -> varlike_id x = true ->
+    exists name i sy, x = term_text name i /\ In sy syms /\ sname sy = Some name /\ is_series (stype sy) = true.
+Proof. exact graph_terms_are_series. Qed.
+Print Assumptions C20_graph_terms_are_series.
+Theorem C20_function_variable_clash_instance :
+  parse_model_nocheck "Y = exp + exp(X)" = PErr SymbolError /\ parse_model_nocheck "Y = exp(X) + exp" = PErr SymbolError /\
+  parse_model_nocheck "Y = max(X, 1) * {max}" = PErr SymbolError /\
+  exists syms, parse_model_nocheck "Y = exp(X) + exp(Z[-1]) * {a}" = POk syms /\
+    map (fun s => (sname s, stype s)) syms = [(Some "Y", TEndogenous); (Some "exp", TFunction); (Some "X", TExogenous); (Some "Z", TExogenous); (Some "a", TParameter)] /\
+    match symbols_to_graph_M syms with
+    | Ret g => in_edges g "Y[t]" = ["exp"; "X[t]"; "Z[t-1]"; "a[t]"] /\ filter varlike_id (in_edges g "Y[t]") = ["X[t]"; "Z[t-1]"; "a[t]"]
+    | Raise _ => False
+    end.
+Proof. exact ex_function_variable_clash. Qed.
+Print Assumptions C20_function_variable_clash_instance.
 
 (* ---- hypotheses are satisfiable; what does not hold of the code as it is ---- *)
 Theorem C20_hypotheses_satisfiable :
